@@ -45,26 +45,60 @@ func (l verifList) Index(w string) int {
 //
 //verif:run quick nw=12 pl=0..3
 //verif:run quick nw=0,11,13 pl=1
+//verif:run thorough nw=27 pl=0
 //verif:run thorough nw=15,24 pl=0,5
+//verif:run thorough nw=33,48 pl=1
 //verif:big bv 640
 //verif:timeout 300
 func VerifC09Seed(nw, pl int) {
+	pass := verifString("pass", pl)
+	for i := 0; i < pl; i++ {
+		verifAssume(pass[i] < 0x80)
+	}
+	verifSeedBody(nw, pass, pass)
+}
+
+// verifSeedBody: MnemonicToSeed on nw symbolic two-byte words and the given passphrase against
+// PBKDF2 with salt "mnemonic" || passNorm.
+func verifSeedBody(nw int, pass, passNorm string) { verifSeedBodyFixed(nw, 0, pass, passNorm) }
+
+// verifSeedBodyFixed: the first `fixed` words are constants (word j has index 37*j+5 mod 2048), the
+// others arbitrary.
+func verifSeedBodyFixed(nw, fixed int, pass, passNorm string) {
 	wordList = verifList{}
 	m := make(Mnemonic, nw)
 	for j := range m {
+		if j < fixed {
+			m[j] = verifList{}.Word((37*j + 5) % 2048)
+			continue
+		}
 		m[j] = verifString("word", 2)
 		verifAssume(m[j][0] < 0x80 && m[j][1] < 0x80)
 	}
 	if verifVariant() == 1 && nw%3 == 0 && nw >= 12 && nw <= 48 {
 		verifRepairChecksum(m)
+		if !verifSymbolic() {
+			// native replay: SHA-256 is uninterpreted in the symbolic run; the class "sentence with a
+			// wrong checksum" is made concrete by flipping each checksum bit of the repaired sentence
+			ent := nw * 11 * 32 / 33
+			for k := 0; k < ent/32; k++ {
+				bad := append(Mnemonic{}, m...)
+				pos := ent + k
+				v := verifWordValue(bad[pos/11])
+				if v >= 2048 {
+					break
+				}
+				bad[pos/11] = verifList{}.Word(v ^ 1<<uint(10-pos%11))
+				sd, e := MnemonicToSeed(bad, pass)
+				verifAssert("bank.wrong.checksum.rejected", e != nil && sd == nil)
+			}
+		}
 	}
-	pass := verifString("pass", pl)
-	for i := 0; i < pl; i++ {
-		verifAssume(pass[i] < 0x80)
-	}
+	valid := verifValidRef(m)
 	_, eerr := MnemonicToEntropy(m)
 	seed, err := MnemonicToSeed(m, pass)
 	verifAssert("err.iff.invalid", (err == nil) == (eerr == nil))
+	verifAssert("err.iff.invalid.bip39", (err == nil) == valid)
 	if err != nil {
 		verifAssert("err.noseed", seed == nil)
 		return
@@ -81,13 +115,55 @@ func VerifC09Seed(nw, pl int) {
 		}
 		pw = append(pw, m[j]...)
 	}
-	want := pbkdf2.Key(pw, []byte("mnemonic"+pass), 2048, 64, sha512.New)
+	want := pbkdf2.Key(pw, []byte("mnemonic"+passNorm), 2048, 64, sha512.New)
 	verifAssert("seed.len", len(seed) == 64)
 	if len(seed) == 64 {
 		for i := range want {
 			verifAssert("seed.pbkdf2", seed[i] == want[i])
 		}
 	}
+}
+
+// VerifC09SeedLong: long sentences (checksums of 9..16 bits) with the last `free` words arbitrary and
+// the others fixed, empty passphrase: the same obligations as VerifC09Seed.
+//
+//verif:run quick nw=27,48 free=2
+//verif:run thorough nw=30,33,36,39,42,45 free=3
+//verif:big bv 640
+//verif:timeout 300
+func VerifC09SeedLong(nw, free int) {
+	verifSeedBodyFixed(nw, nw-free, "", "")
+}
+
+// verifNFKD: passphrase classes with their NFKD forms as literals (computed with an independent
+// implementation, Python's unicodedata): canonical and compatibility decompositions from Latin-1,
+// the BMP and presentation forms, a string already in NFKD, canonical reordering of combining marks.
+var verifNFKD = [][2]string{
+	{"\u00e9", "e\u0301"},                 // Latin-1 letter with canonical decomposition
+	{"\u00a0", " "},                        // Latin-1 no-break space (compatibility)
+	{"\u00b2", "2"},                        // Latin-1 superscript (compatibility)
+	{"\ufb01", "fi"},                       // ligature
+	{"\u212b", "A\u030a"},                 // angstrom sign (singleton, then canonical)
+	{"e\u0301", "e\u0301"},                // already decomposed
+	{"\u30ac", "\u30ab\u3099"},           // kana with voiced mark
+	{"\uff71", "\u30a2"},                  // half-width kana
+	{"a\u0307\u0323", "a\u0323\u0307"},  // reordering of combining marks
+	{"p\u00e4ss w\u00f6rd", "pa\u0308ss wo\u0308rd"},
+	{"\u1e9b\u0323", "s\u0323\u0307"},   // long s with dot above + dot below
+}
+
+// VerifC09SeedUnicode: as VerifC09Seed for passphrases that change under NFKD: class k of verifNFKD,
+// preceded and followed by one arbitrary ASCII byte. The implementation's normalisation runs in the
+// model (native golang.org/x/text on the constant stretch), the expected salt is the literal.
+//
+//verif:run quick nw=12 k=0..10
+//verif:big bv 640
+//verif:timeout 300
+func VerifC09SeedUnicode(nw, k int) {
+	a := verifString("pre", 1)
+	b := verifString("post", 1)
+	verifAssume(a[0] < 0x80 && b[0] < 0x80)
+	verifSeedBody(nw, a+verifNFKD[k][0]+b, a+verifNFKD[k][1]+b)
 }
 
 func verifIsSpace(c byte) bool {
@@ -138,6 +214,37 @@ func VerifC09Parse(n int) {
 	verifAssert("unmarshal", m3.UnmarshalText([]byte(s)) == nil && len(m3) == len(m))
 }
 
+// verifValidRef: BIP-39 validity written from the specification: 12..48 words in steps of 3, all in
+// the list, and the last ENT/32 bits equal to the first bits of SHA-256(entropy).
+func verifValidRef(m Mnemonic) bool {
+	nw := len(m)
+	if nw < 12 || nw > 48 || nw%3 != 0 {
+		return false
+	}
+	ok := true
+	ent := nw * 11 * 32 / 33 / 8
+	idx := make([]int, nw)
+	for j := range m {
+		idx[j] = verifWordValue(m[j])
+		if len(m[j]) != 2 || idx[j] >= 2048 {
+			ok = false
+			idx[j] = 0
+		}
+	}
+	bit := func(k int) byte { return byte(idx[k/11]>>uint(10-k%11)) & 1 }
+	ref := make([]byte, ent)
+	for k := 0; k < 8*ent; k++ {
+		ref[k/8] |= bit(k) << uint(7-k%8)
+	}
+	hash := sha256.Sum256(ref)
+	for k := 0; k < ent/4; k++ {
+		if bit(8*ent+k) != (hash[k/8]>>uint(7-k%8))&1 {
+			ok = false
+		}
+	}
+	return ok
+}
+
 // verifRepairChecksum (replays only): SHA-256 is uninterpreted in the symbolic run, so a
 // counterexample that needs a valid checksum is rebuilt with the real one.
 func verifRepairChecksum(m Mnemonic) {
@@ -163,5 +270,57 @@ func verifRepairChecksum(m Mnemonic) {
 	}
 	for j := range m {
 		m[j] = verifList{}.Word(idx[j])
+	}
+}
+
+// verifSeps: white space and compatibility forms between two words, with the words expected from
+// "w1" + sep + "w2" (prefix joined to w1 / w2 where the separator leaves combining marks behind).
+var verifSeps = []struct {
+	sep        string
+	tail, head string // appended to w1 / prepended to w2 in the expected words
+	one        bool   // sep joins the words instead of separating them
+}{
+	{sep: "\u3000"},                     // ideographic space
+	{sep: "\u00a0"},                     // no-break space
+	{sep: "\u2003"},                     // em space
+	{sep: " \u3000\t\u2028"},           // mixture
+	{sep: "\u0085"},                     // next line (white space, unchanged by NFKD)
+	{sep: "\u00a8", head: "\u0308"},    // diaeresis: NFKD = space + combining diaeresis
+	{sep: "\ufb01", tail: "fi", one: true}, // ligature inside a word
+	{sep: "\u00e9\u3000", tail: "e\u0301"},
+}
+
+// VerifC09ParseUnicode: ParseMnemonic on w1 + sep + w2 (w1, w2 arbitrary non-space ASCII words of two
+// bytes, sep = class k of verifSeps) yields the words of the NFKD-normalised sentence, and parsing the
+// printed form of the result gives the same sentence.
+//
+//verif:run quick k=0..7
+//verif:init unicode
+func VerifC09ParseUnicode(k int) {
+	w1, w2 := verifString("w1", 2), verifString("w2", 2)
+	for i := 0; i < 2; i++ {
+		verifAssume(w1[i] < 0x80 && w2[i] < 0x80 && !verifIsSpace(w1[i]) && !verifIsSpace(w2[i]))
+	}
+	c := verifSeps[k]
+	m := ParseMnemonic(w1 + c.sep + w2)
+	var want []string
+	if c.one {
+		want = []string{w1 + c.tail + c.head + w2}
+	} else {
+		want = []string{w1 + c.tail, c.head + w2}
+	}
+	verifAssert("uparse.count", len(m) == len(want))
+	if len(m) != len(want) {
+		return
+	}
+	for i := range want {
+		verifAssert("uparse.word", m[i] == want[i])
+	}
+	m2 := ParseMnemonic(m.String())
+	verifAssert("ureparse.count", len(m2) == len(m))
+	if len(m2) == len(m) {
+		for i := range m {
+			verifAssert("ureparse.word", m2[i] == m[i])
+		}
 	}
 }
